@@ -120,6 +120,9 @@ def stepLoaded (d : DSt) (st : St) (ts : List String) : DSt × String :=
   | ["rmerge", e, f] => match entOf e, entOf f with
       | some e, some f => apply d st (.rmerge e f)
       | _, _ => bad d
+  | ["json", e] => match entOf e with
+      | some e => apply d st (.json e)
+      | none => bad d
   | ["strip", e, ks] => match entOf e, (if ks = "-" then some [] else (ks.splitOn ",").mapM keyOf) with
       | some e, some ks => apply d st (.strip e ks)
       | _, _ => bad d
